@@ -69,10 +69,59 @@ def feedable_for_role(sites, inp, client_side):
     return any(r is None or r == role for _, r in lst)
 
 
+# which call or frame handler steps the connection machine with which input
+# (confirmed by reading the pinned tree; the role analysis below and every
+# "is refused when closed" argument rest on it)
+CONN_INPUT_SITES = {
+    'RECV_ALTERNATIVE_SERVICE': {'_receive_alt_svc_frame'},
+    'RECV_DATA': {'_receive_data_frame'},
+    'RECV_GOAWAY': {'_receive_goaway_frame'},
+    'RECV_HEADERS': {'_receive_headers_frame', 'initiate_upgrade_connection'},
+    'RECV_PING': {'_receive_ping_frame'},
+    'RECV_PRIORITY': {'_receive_priority_frame'},
+    'RECV_PUSH_PROMISE': {'_receive_push_promise_frame'},
+    'RECV_RST_STREAM': {'_receive_rst_stream_frame'},
+    'RECV_SETTINGS': {'_receive_settings_frame'},
+    'RECV_WINDOW_UPDATE': {'_receive_window_update_frame'},
+    'SEND_ALTERNATIVE_SERVICE': {'advertise_alternative_service'},
+    'SEND_DATA': {'end_stream', 'send_data'},
+    'SEND_GOAWAY': {'_terminate_connection', 'close_connection'},
+    'SEND_HEADERS': {'initiate_upgrade_connection', 'send_headers'},
+    'SEND_PING': {'ping'},
+    'SEND_PRIORITY': {'prioritize'},
+    'SEND_PUSH_PROMISE': {'push_stream'},
+    'SEND_RST_STREAM': {'reset_stream'},
+    'SEND_SETTINGS': {'_acknowledge_settings', 'initiate_connection',
+                      'update_settings'},
+    'SEND_WINDOW_UPDATE': {'increment_flow_control_window'},
+}
+
+
+def check_input_sites(ctx, sites, inputs=None):
+    """Every call and every frame handler steps the connection machine with
+    its own input (send_data with SEND_DATA, the DATA handler with
+    RECV_DATA...): an input borrowed from another frame type is accepted or
+    refused in other states and moves the machine differently."""
+    for inp, exp in sorted(CONN_INPUT_SITES.items()):
+        if inputs is not None and inp not in inputs:
+            continue
+        got = {f.name for f, _ in sites.get(inp, ())}
+        ctx.ob('TAB.inputs', 'connection.H2Connection', 'fed %s' % inp,
+               got == exp, '%s is fed by %s%s' % (
+                   inp, sorted(got) or 'nobody',
+                   '' if got == exp else ', expected %s' % sorted(exp)))
+    extra = sorted(set(sites) - set(CONN_INPUT_SITES))
+    if inputs is None:
+        ctx.ob('TAB.inputs', 'connection.H2Connection', 'no other input',
+               not extra, 'inputs fed: %d%s' % (
+                   len(sites), ', unknown: %s' % extra if extra else ''))
+
+
 def compare_conn(eng, ctx, prop_rule, inputs=None, states=None):
     """Role-wise comparison of the connection table with conn_ref."""
     fsm = eng.fsm
     sites = conn_input_sites(eng)
+    check_input_sites(ctx, sites, inputs)
     ctx.record('connection_input_sites',
                sum(len(v) for v in sites.values()))
     n = 0
